@@ -2,6 +2,7 @@
 default schedules="all" stands for every (state, POVM) pair exactly once, in row-major order, in the class's own shape"""
 from qverif.symtwin.verify import E2Contract, eq
 from .C09_all import exact_testers, build_qt
+from ._cfg import make_csys
 
 STD = "quara.protocol.qtomography.standard."
 
@@ -41,3 +42,120 @@ class AllExpansion(E2Contract):
         return [eq("tester-counts-differ", [ns, npv], [4, 3], "(the tester set has 4 states and 3 POVMs)"),
                 eq("all==every-pair-once", out["schedules"], want, "the string all expands to every tester combination once, states outermost, in the shape of the class"),
                 eq("num_schedules", out["num_schedules"], len(want), "num_schedules == number of tester combinations")]
+
+
+class CalcProbDist(E2Contract):
+    """Experiment.calc_prob_dist on every accepted schedule shape (state-povm, state-gate-povm, state-mprocess-povm): with all objects present the
+    result is the Born distribution of the circuit read left to right (symbolic state), normalised; with a None placeholder at ANY referenced
+    position (state, gate, mprocess or POVM) the call is rejected with ValueError naming that list and index - not with whatever the composition
+    would raise on None."""
+    name = "calc_prob_dist: None placeholders rejected, circuit order"
+    prop = "C20"
+    targets = ("quara.qcircuit.experiment:Experiment.calc_prob_dist",)
+    frame = False
+    may_raise = True
+    n_conformance = 2
+    max_paths = 8
+
+    def configs(self, tier):
+        return [(shape, none_at) for shape in ("sp", "sgp", "smp") for none_at in (None,) + tuple(range(len(shape)))]
+
+    def inputs(self, W, cfg, mk):
+        import math
+        s = mk.array("s", 3)
+        # the regular regime of the property's scope (physical objects): every final and intermediate probability is positive, so the
+        # zero-probability handling of the composition (C06's contract) stays out of the way
+        r = 1 / math.sqrt(2)
+        sv = [r, s[0], s[1], s[2]]
+        P = [[r * v for v in p] for p in ([0.5, 0.5, 0, 0], [0.5, 0, 0.5, 0], [1, -0.5, -0.5, 0])]
+        G = [[1, 0, 0, 0], [0, 0, -1, 0], [0, 1, 0, 0], [0, 0, 0, 1]]
+        M = [[[0.5, 0, 0, 0.5], [0, 0, 0, 0], [0, 0, 0, 0], [0.5, 0, 0, 0.5]], [[0.5, 0, 0, -0.5], [0, 0, 0, 0], [0, 0, 0, 0], [-0.5, 0, 0, 0.5]]]
+        mv = lambda A, v: [sum(A[i][j] * v[j] for j in range(4)) for i in range(4)]
+        dot = lambda a, b: sum(a[i] * b[i] for i in range(4))
+        shape = cfg[0]
+        if shape == "sp":
+            probs = [dot(p, sv) for p in P]
+        elif shape == "sgp":
+            probs = [dot(p, mv(G, sv)) for p in P]
+        else:
+            probs = [math.sqrt(2) * mv(m, sv)[0] for m in M] + [dot(p, mv(m, sv)) for m in M for p in P]
+        for v in probs:
+            mk.require(v >= 2e-8)
+        return dict(s=s)
+
+    def sample(self, cfg, names, rng):
+        return {n: rng.uniform(-0.05, 0.05) for n in names}
+
+    def _objects(self, W, inp):
+        np = W.np
+        c_sys = make_csys(W, "1q")
+        kw = dict(is_physicality_required=False)
+        State = W.mod("quara.objects.state").State
+        Povm = W.mod("quara.objects.povm").Povm
+        Gate = W.mod("quara.objects.gate").Gate
+        MProcess = W.mod("quara.objects.mprocess").MProcess
+        r = 1 / np.sqrt(2)
+        s = inp["s"]
+        svec = np.array([r, s[0], s[1], s[2]])
+        pvecs = [r * np.array(v, dtype=np.float64) for v in ([0.5, 0.5, 0, 0], [0.5, 0, 0.5, 0], [1, -0.5, -0.5, 0])]
+        ghs = np.array([[1, 0, 0, 0], [0, 0, -1, 0], [0, 1, 0, 0], [0, 0, 0, 1]], dtype=np.float64)
+        m0 = 0.5 * np.array([[1, 0, 0, 1], [0, 0, 0, 0], [0, 0, 0, 0], [1, 0, 0, 1]], dtype=np.float64)
+        m1 = 0.5 * np.array([[1, 0, 0, -1], [0, 0, 0, 0], [0, 0, 0, 0], [-1, 0, 0, 1]], dtype=np.float64)
+        return dict(c_sys=c_sys, state=State(c_sys, svec, **kw), povm=Povm(c_sys, pvecs, **kw), gate=Gate(c_sys, ghs, **kw),
+                    mprocess=MProcess(c_sys, [m0, m1], **kw), svec=svec, pvecs=pvecs, ghs=ghs, ms=[m0, m1])
+
+    KIND = dict(s="state", g="gate", m="mprocess", p="povm")
+
+    def run(self, W, cfg, inp):
+        shape, none_at = cfg
+        Experiment = W.mod("quara.qcircuit.experiment").Experiment
+        o = self._objects(W, inp)
+        lists = dict(state=[o["state"]], povm=[o["povm"]], gate=[o["gate"]], mprocess=[o["mprocess"]])
+        # a second (unused) entry per list so that the referenced index is 1 for the middle item: the message must name the referenced index
+        lists["gate"] = [None, o["gate"]]
+        lists["mprocess"] = [None, o["mprocess"]]
+        idx = dict(state=0, povm=0, gate=1, mprocess=1)
+        kinds = [self.KIND[c] for c in shape]
+        if none_at is not None:
+            k = kinds[none_at]
+            lists[k] = list(lists[k])
+            lists[k][idx[k]] = None
+        schedule = [(k, idx[k]) for k in kinds]
+        exp = Experiment(schedules=[schedule], states=lists["state"], povms=lists["povm"], gates=lists["gate"], mprocesses=lists["mprocess"])
+        ref = dict(svec=o["svec"], pvecs=o["pvecs"], ghs=o["ghs"], ms=o["ms"])
+        try:
+            ps = exp.calc_prob_dist(0)
+        except Exception as e:  # noqa - judged by post()
+            return dict(raised=type(e).__name__, message=str(e), ps=None, o=ref)
+        return dict(raised=None, message=None, ps=ps, o=ref)
+
+    def post(self, W, cfg, inp, out):
+        shape, none_at = cfg
+        o = out["o"]
+        kinds = [self.KIND[c] for c in shape]
+        idx = dict(state=0, povm=0, gate=1, mprocess=1)
+        if none_at is not None:
+            k = kinds[none_at]
+            return [eq("none-placeholder-rejected-with-ValueError", out["raised"], "ValueError",
+                       "a None placeholder at a referenced position is rejected with ValueError, whichever kind it is"),
+                    eq("message-names-list-and-index", out["message"], "{}s[{}] is None.".format(k, idx[k]), "the message names the list and the referenced index")]
+        np = W.np
+        s = o["svec"]
+        if shape == "sp":
+            want = [sum(p[i] * s[i] for i in range(4)) for p in o["pvecs"]]
+        elif shape == "sgp":
+            gs = [sum(o["ghs"][i][j] * s[j] for j in range(4)) for i in range(4)]
+            want = [sum(p[i] * gs[i] for i in range(4)) for p in o["pvecs"]]
+        else:
+            want = []
+            for m in o["ms"]:
+                ms = [sum(m[i][j] * s[j] for j in range(4)) for i in range(4)]
+                want += [sum(p[i] * ms[i] for i in range(4)) for p in o["pvecs"]]
+        got = out["ps"]
+        tot = 0
+        for v in (list(got.flatten()) if got is not None else []):
+            tot = tot + v
+        return [eq("returns-normally", out["raised"], None, "every accepted schedule whose objects are present can be executed"),
+                eq("born-distribution-in-circuit-order", list(got.flatten()) if got is not None else None, want,
+                   "items composed in schedule order: p(x[,y]) = <povm_y, (op_x) state>"),
+                eq("normalised", tot, 1, "the distribution sums to one (trace-one state, TP gate / measurement process, POVM summing to I)")]
